@@ -312,6 +312,8 @@ def _outpath_case(args):
                  "same-via-dotdot": d / "sub" / ".." / first.name,
                  "same-relative": pathlib.Path(first.name),
                  "stem-via-dotdot": d / "sub" / ".." / first.stem,
+                 # a requested name that looks like dclab's temporary one
+                 "tilde-suffix": d / "result.rtdc~",
                  }[how]
         (d / "sub").mkdir(exist_ok=True)
         here = os.getcwd()
@@ -319,11 +321,35 @@ def _outpath_case(args):
             os.chdir(d)
         before = {p: sha(p) for p in ins}
         fn = getattr(cli, task)
-        try:
+
+        def call():
             if task == "join":
                 fn(paths_in=ins, path_out=given)
             else:
                 fn(path_in=first, path_out=given)
+        if how == "tilde-suffix":
+            # with injected failures: whatever name the tool derives, the
+            # *requested* path never holds an incomplete file
+            K = faults.run_child(call)["count"]
+            for x in d.glob("result*"):
+                x.unlink()
+            for k in sorted(set(range(1, K + 1, max(1, K // 10))) | {K}):
+                res = faults.run_child(call, target=k, kind="error")
+                if given.exists():
+                    try:
+                        content_digest(given)
+                    except BaseException as e:
+                        out.append(violation(
+                            where, "partial-output", dict(case, k=k),
+                            f"{task} asked to write '{given.name}', error "
+                            f"at crossing {k}/{K}: the requested path "
+                            f"holds an incomplete file "
+                            f"({type(e).__name__})", tags))
+                        break
+                for x in d.glob("result*"):
+                    x.unlink()
+        try:
+            call()
             status = "ok"
         except BaseException as e:
             status = f"{type(e).__name__}: {e}"
@@ -396,7 +422,7 @@ def run(ctx):
               for how in ("other-suffix", "no-suffix", "same-as-input",
                           "input-stem", "input-stem-other-suffix",
                           "same-via-dotdot", "same-relative",
-                          "stem-via-dotdot")]
+                          "stem-via-dotdot", "tilde-suffix")]
     for vs in par.pmap(_outpath_case, oitems):
         viols.extend(vs)
     statuses = {}
